@@ -1080,6 +1080,17 @@ fn faults() -> Vec<Fault> {
     Fault { name: "unknown-path", req: Req { method: "POST", path: "/no/such/endpoint".into(), content_type: None, body: vec![] } },
     Fault { name: "evaluate-path-with-too-few-segments", req: Req { method: "POST", path: "/evaluate/model1".into(), content_type: None, body: vec![] } },
   ];
+  // failures whose message repeats a long non-ASCII text of the request (three alignments of the multi-byte characters)
+  const LONG_NAMES: [&str; 3] = ["unknown-model-with-a-long-non-ascii-name-0", "unknown-model-with-a-long-non-ascii-name-1", "unknown-model-with-a-long-non-ascii-name-2"];
+  const LONG_INPUTS: [&str; 3] = ["long-non-ascii-input-that-does-not-parse-0", "long-non-ascii-input-that-does-not-parse-1", "long-non-ascii-input-that-does-not-parse-2"];
+  const LONG_TCK: [&str; 3] = ["tck-with-a-long-non-ascii-model-name-0", "tck-with-a-long-non-ascii-model-name-1", "tck-with-a-long-non-ascii-model-name-2"];
+  for k in 0..3 {
+    let pct = format!("{}{}", "x".repeat(k), "%E6%97%A5%C5%BC".repeat(70));
+    v.push(Fault { name: LONG_NAMES[k], req: Req { method: "POST", path: format!("/evaluate/{}/D", pct), content_type: Some("text/plain"), body: b"{}".to_vec() } });
+    let text = format!("{}{}", "x".repeat(k), "\u{65E5}\u{17C}".repeat(70));
+    v.push(Fault { name: LONG_INPUTS[k], req: Req { method: "POST", path: "/evaluate/model1/D".into(), content_type: Some("text/plain"), body: format!("{{{}: ", text).into_bytes() } });
+    v.push(Fault { name: LONG_TCK[k], req: post_json("/tck/evaluate", format!("{{\"model\":\"{}\",\"invocable\":\"D\",\"input\":[]}}", text)) });
+  }
   // a body over the JSON limit of 4 MiB
   v.push(Fault { name: "body-over-the-limit", req: post_json("/definitions/add", format!("{{\"content\":\"{}\"}}", "A".repeat(5 * 1024 * 1024))) });
   // a model that parses but does not build, and generated models whose mutants used to crash the evaluator (C12)
